@@ -114,7 +114,7 @@ def criteria_checks(chk, table, cplx):
 def jobs(chk):
     quick = chk.tier == 'quick'
     inv = ['ReflectionAtMostOne', 'StepUpIsAr', 'VarianceFormula', 'VarianceNonIncreasing', 'ErrorsAreFilterOutputs',
-           'DenominatorIsEnergy', 'StageOptimal']
+           'DenominatorIsEnergy', 'MarpleRecursionIsExact', 'StageOptimal']
     js = []
     for cplx, minn, maxn, order, parts in ((False, 3, 5 if quick else 6, 3, 'PartsS' if quick else 'PartsQ'),
                                            (True, 3, 4, 2, 'Parts01' if quick else 'PartsS')):
